@@ -77,6 +77,29 @@ pub open spec fn xor_seq(a: Seq<u8>, b: Seq<u8>) -> Seq<u8> {
     Seq::new(a.len(), |i: int| a[i] ^ b[i])
 }
 
+pub proof fn xor_comm(a: Seq<u8>, b: Seq<u8>)
+    requires a.len() == b.len()
+    ensures xor_seq(a, b) == xor_seq(b, a)
+{
+    assert forall |i: int| 0 <= i < a.len() implies a[i] ^ b[i] == b[i] ^ a[i] by {
+        let x = a[i]; let y = b[i];
+        assert(x ^ y == y ^ x) by (bit_vector);
+    }
+    assert(xor_seq(a, b) =~= xor_seq(b, a));
+}
+
+// (a ^ b) ^ b == a : the keystream / chaining XOR is an involution
+pub proof fn xor_cancel(a: Seq<u8>, b: Seq<u8>)
+    requires a.len() == b.len()
+    ensures xor_seq(xor_seq(a, b), b) == a
+{
+    assert forall |i: int| 0 <= i < a.len() implies (a[i] ^ b[i]) ^ b[i] == a[i] by {
+        let x = a[i]; let y = b[i];
+        assert((x ^ y) ^ y == x) by (bit_vector);
+    }
+    assert(xor_seq(xor_seq(a, b), b) =~= a);
+}
+
 pub open spec fn views<N: ArraySize>(s: Seq<Array<u8, N>>) -> Seq<Blk> { Seq::new(s.len(), |i: int| s[i]@) }
 
 // ---------- the sequential transducer and its fold (spec library core) ----------
